@@ -301,16 +301,16 @@ def gen_it(rng):
 # deterministic witnesses for the voice-position invariant of the mixer (C01)
 # --------------------------------------------------------------------------
 
-def it_module(samples, rows, speed=6, tempo=125, nrows=64, flags=0x09, title=b"c01 witness"):
+def it_module(samples, rows, speed=6, tempo=125, nrows=64, flags=0x09, title=b"c01 witness", midi=None):
     """IT file in sample mode.  samples: list of dicts n, c5spd, flg (IT sample flag byte without bit 0/1),
     lps, lpe, sus, sue, b16.  rows: {row: [(channel 1.., note or None, ins or None, cmd or None, prm)]}."""
     ln, nsmp, npat = 1, len(samples), 1
     hdr = bytearray(b"IMPM" + title.ljust(26, b"\0") + b"\x04\x10")
     hdr += struct.pack("<HHHH", ln, 0, nsmp, npat)
-    hdr += struct.pack("<HHHH", 0x0214, 0x0214, flags, 0)
+    hdr += struct.pack("<HHHH", 0x0214, 0x0214, flags, 8 if midi is not None else 0)
     hdr += bytes([128, 48, speed, tempo, 128, 0]) + struct.pack("<HII", 0, 0, 0)
     hdr += bytes([32] * 64) + bytes([64] * 64)
-    off = 192 + ln + 4 * nsmp + 4 * npat
+    off = 192 + ln + 4 * nsmp + 4 * npat + (len(midi) if midi is not None else 0)
     sptr = []
     for _ in samples:
         sptr.append(off)
@@ -343,7 +343,36 @@ def it_module(samples, rows, speed=6, tempo=125, nrows=64, flags=0x09, title=b"c
         sdata.append(d)
         off += len(d)
     return (bytes(hdr) + bytes([0]) + b"".join(struct.pack("<I", x) for x in sptr) + struct.pack("<I", pptr[0])
-            + b"".join(shdrs) + pb + b"".join(sdata))
+            + (midi if midi is not None else b"") + b"".join(shdrs) + pb + b"".join(sdata))
+
+
+def gen_it_midi(rng):
+    """IT module with an embedded MIDI configuration (9 global + 16 parametered + 128 fixed macros of 32 bytes)
+    whose entries are empty, ordinary, or fill all 32 bytes without a terminator, and patterns that execute
+    them (Zxx with parameters on both sides of 0x80, SFx macro select) next to filter-capable notes."""
+    def macro():
+        k = rng.random()
+        if k < 0.3:
+            return bytes(32)
+        if k < 0.6:
+            return rng.choice([b"F0F000z", b"F0F001z", b"F0F0z00", b"c", b"zzzz"]).ljust(32, b"\0")
+        body = bytes(rng.choice(b"0123456789ABCDEFzcnvuxyabhmop") for _ in range(32))
+        return body if rng.random() < 0.7 else body[:rng.randrange(1, 32)].ljust(32, b"\0")
+    midi = b"".join(macro() for _ in range(9 + 16 + 128))
+    n = rng.choice([64, 500, 3000])
+    samples = [dict(n=n, c5spd=8363, flg=rng.choice([0, 0x10]), lps=0, lpe=n, sus=0, sue=0)]
+    rows = {}
+    for r in range(0, 64, 2):
+        cmd = rng.choice([26, 26, 26, 19, None])          # Z, Z, Z, S
+        if cmd == 26:
+            prm = rng.choice([0, 1, 0x7f, 0x80, 0x81, 0x8f, 0x90, 0xfe, 0xff, rng.randrange(256)])
+        elif cmd == 19:
+            prm = 0xf0 | rng.randrange(16)
+        else:
+            prm = 0
+        rows[r] = [(1 + (r // 2) % 3, rng.choice([48, 60, 72]) if rng.random() < 0.5 else None,
+                    1 if rng.random() < 0.5 else None, cmd, prm)]
+    return it_module(samples, rows, speed=rng.choice([1, 3, 6]), title=b"midi macros", midi=midi), "it"
 
 
 def mod_module(samples, rows, nrows=64, magic=b"M.K."):
@@ -781,7 +810,7 @@ def gen_mmd(rng):
 
 GENS = [gen_mod, gen_xm, gen_xm, gen_s3m, gen_it, gen_it]
 # generators added for C01 only (C02 keeps using GENS through write_set)
-GENS_C01_EXTRA = [gen_dbm, gen_it_compressed, gen_mmd, gen_dbm, gen_mmd, gen_it_compressed]
+GENS_C01_EXTRA = [gen_dbm, gen_it_compressed, gen_mmd, gen_dbm, gen_mmd, gen_it_compressed, gen_it_midi]
 
 
 def write_set_extra(rng, dirname, count, gens=None, prefix="syx"):
